@@ -69,7 +69,7 @@ Definition nthb (k : nat) (l : list bool) : bool := nth k l false.
 Definition class_lines (a : list aline) : list bool :=
   map (fun i => negb (forallb (line_avoids (with_on i ideal)) a)) flag_ids.
 Definition in_classes (cl : list bool) (a : list aline) (v : nat) : list bool :=
-  map (fun i => nth i cl false || ((i =? 3) && negb (block_avoid a 1 v false))) flag_ids.
+  map (fun i => nth i cl false) flag_ids.
 
 (* all (line, rule) pairs, every query through the shared parser *)
 Definition cross (ls : list nat) (rs : list string) : list query :=
